@@ -72,7 +72,8 @@ def c_package(rng, W):
         ('amsmath', '%s $x \\text{%s} y$ and\n\\begin{align}\n a &= b \\\\\n'
                     ' c &= d.\n\\end{align}\n' % (a, b)),
         ('xspace', '%s\\xspace %s.\n' % (a, b)),
-        ('unicode-math', '%s\n\\[ x ≤ y \\]\n%s.\n' % (a, b)),
+        ('unicode-math', '%s\n\\begin{eqnarray}\n a &=& b \\\\\n &≤& c.\n'
+                         '\\end{eqnarray}\n%s.\n' % (a, b)),
         ('biblatex', '%s \\autocite{k} \\parencite[p.~1]{k} %s.\n' % (a, b)),
         ('hyperref', '%s \\href{http://x.y}{%s} \\url{http://z}.\n' % (a, b)),
         ('xcolor', '%s \\textcolor{red}{%s}.\n' % (a, b)),
@@ -96,9 +97,9 @@ def c_package(rng, W):
 def c_cleveref(rng, W):
     a = W.word()
     f = _name(rng, 'cr') + '.sed'
-    sed = ('s/\\\\cref\\*\\{lab\\}/Abschnitt~1/g\n'
-           's/\\\\cref\\{lab\\}/Abschnitt~1/g\n'
-           's/\\\\Cref\\{lab\\}/Abschnitt~1/g\n')
+    sed = ('s/\\\\cref\\*{lab}/Abschnitt eins/g\n'
+           's/\\\\cref{lab}/Abschnitt eins/g\n'
+           's/\\\\Cref{lab}/Abschnitt eins/g\n')
     return {'name': 'cleveref_table',
             'pol': '\\usepackage[poorman]{cleveref}\n\\YYCleverefInput{%s}\n'
                    'See \\cref{lab}.\n' % f,
@@ -742,6 +743,8 @@ def run(seed, tier, budget_s):
     step = 480
     i = 0
     pair_cov = {}
+    arrival_orders = set()
+    req_fault_mix = {}
     while i < n and batch.elapsed() < budget_s:
         plans = [gen_plan(core.run_rng(seed, PID, j), j)
                  for j in range(i, min(n, i + step))]
@@ -750,6 +753,16 @@ def run(seed, tier, budget_s):
             batch.add(p, r)
             for k in r.get('pairs', []):
                 pair_cov[k] = pair_cov.get(k, 0) + 1
+            if p['system'] == 'server':
+                # the schedule of a server history = arrival order of the
+                # clients' requests together with the fault placed on each
+                arrival_orders.add(tuple(
+                    (q['client'], (q.get('fault') or {}).get('kind'),
+                     bool(q.get('dup_of'))) for q in p['requests']))
+                for q in p['requests']:
+                    kf = (q.get('fault') or {}).get('kind') or \
+                        ('duplicate' if q.get('dup_of') else 'none')
+                    req_fault_mix[kf] = req_fault_mix.get(kf, 0) + 1
             if len(batch.samples) < 4 and r.get('pairs'):
                 if p['system'] == 'lib':
                     batch.samples.append({'system': 'lib', 'history': [
@@ -796,7 +809,9 @@ def run(seed, tier, budget_s):
                     'subprocess.run / urllib (reactive fake proofreader flagging every generated word)',
                     'builtins.open for relative paths', 'time'],
     }
-    extra = {'carrier_pairs_exercised': dict(sorted(pair_cov.items())),
+    extra = {'distinct_arrival_schedules': len(arrival_orders),
+             'requests_planned_by_fault_kind': dict(sorted(req_fault_mix.items())),
+             'carrier_pairs_exercised': dict(sorted(pair_cov.items())),
              'carriers_exercised': carriers,
              'carriers_live_in_one_document': live,
              'carriers_dead_in_one_document': dead}
